@@ -40,8 +40,8 @@ def gen_func(rng, wrong_p=0.15, explicit_p=0.5):
         for _ in range(rng.randint(0, 4)):
             k = rng.choice(["V", "V", "S", "C", "CF", "CV"])
             toks.append(k if k in ("S", "C", "CF") else k + ":" + ident(k, False))
-        t = rng.choice(["R", "R", "I", "IV", "IVF"])
-        toks.append(t if t != "I" else "I:" + ident("I", False))
+        t = rng.choice(["R", "R", "I", "IV", "IVF", "K", "CB"])
+        toks.append(t if t not in ("I", "K", "CB") else t + ":" + ident(t, False))
     return toks
 
 
@@ -49,7 +49,7 @@ def is_valid_llvm(toks):
     n = 0
     for t in toks:
         p = t.split(":")
-        if p[0] in ("P", "B", "V", "CV", "I"):
+        if p[0] in ("P", "B", "V", "CV", "I", "K", "CB"):
             if p[1] == "n":
                 continue
             if p[1].startswith("e") and int(p[1][1:]) != n:
